@@ -57,7 +57,8 @@ Definition endpoint_slope (dl dr hl hr : A) : A :=
   let w1 := c2 * hl + hr in
   (w1 * dl - hl * dr) / (hl + hr).
 
-(* _limit_endpoint, as in the source today: first mask is [d_end * s_l < 0] *)
+(* _limit_endpoint as it was before the fix of finding F-11 (/repo b976cb3): first mask [d_end * s_l < 0].
+   Kept because Proofs/PchipProofs.v proves that THIS variant overshoots (regression documentation). *)
 Definition limit_endpoint_src (d sl sr : A) : A :=
   let d1 := if (d * sl) <? c0 then c0 else d in
   if ((sl * sr) <? c0) && ((c3 * a_abs ar sl) <? a_abs ar d1) then c3 * sl else d1.
@@ -70,16 +71,15 @@ Definition limit_endpoint_ref (d sl sr : A) : A :=
   else if a_neqb (a_sign sl) (a_sign sr) && ((c3 * a_abs ar sl) <? a_abs ar d) then c3 * sl
   else d.
 
-(* the limiter after the proposed fix of finding F-11 (proposed_fixes/pchip-flat-end-overshoot.diff):
-   only the first mask changes, to [torch.sign(d_end) != torch.sign(s_l)] *)
+(* _limit_endpoint as in the source today (after the fix of F-11, /repo b976cb3):
+   first mask [torch.sign(d_end) != torch.sign(s_l)] *)
 Definition limit_endpoint_fixed (d sl sr : A) : A :=
   let d1 := if a_neqb (a_sign d) (a_sign sl) then c0 else d in
   if ((sl * sr) <? c0) && ((c3 * a_abs ar sl) <? a_abs ar d1) then c3 * sl else d1.
 
 (* THE MODEL OF _limit_endpoint.  It must follow /repo (the bit-exact correspondence of ./check C20
-   fails otherwise).  When the fix of F-11 lands in /repo, change the right-hand side to
-   [limit_endpoint_fixed] and install proposed_fixes/C20_after_F11.v as Properties/C20.v. *)
-Definition limit_endpoint : A -> A -> A -> A := limit_endpoint_src.
+   fails otherwise). *)
+Definition limit_endpoint : A -> A -> A -> A := limit_endpoint_fixed.
 
 (* interior knot slope: where(delta_l*delta_r > 0, whm, 0) *)
 Definition interior_slope (dl dr hl hr : A) : A :=
